@@ -36,7 +36,7 @@ func init() {
 		Rule: "each evaluation runs one tape twice: with the special node (a validator with the watch-only flag, else an observer) running under the direct oracle (no Broadcast / Block.Sign / PreBlock.SetData ever), and with that node never started; the other nodes' canonical traces must be identical; non-trivial iff a validator with the watch-only flag set was the primary of its current height and view at least once; distinct = distinct ordered delivery sequences"})
 	register(&PropSpec{ID: "C08", Run: simpleRun(SyncScenario, func(s *Sim) { s.AddOracle(NewOracleC08(s)); s.AddOracle(NewOracleC01(s)) }),
 		Rule: "a run is non-trivial iff some payload reached a node before it had entered the height or view it belongs to (it was cached) in a run whose delivery order is tape-permuted; distinct = distinct ordered delivery sequences"})
-	register(&PropSpec{ID: "C09", Run: simpleRun(GSTScenario, func(s *Sim) { s.AddOracle(NewOracleC09(s)); s.AddOracle(NewOracleC01(s)) }),
+	register(&PropSpec{ID: "C09", Run: mixRun(8, directedLockRun(func(s *Sim) { s.AddOracle(NewOracleC09(s)); s.AddOracle(NewOracleC01(s)) }), simpleRun(GSTScenario, func(s *Sim) { s.AddOracle(NewOracleC09(s)); s.AddOracle(NewOracleC01(s)) })),
 		Rule: "a run is non-trivial iff validators were silent from the start, or a partition healed, or a validator restarted, before the network became synchronous; distinct = distinct ordered delivery sequences"})
 	register(&PropSpec{ID: "C15", Run: simpleRun(ClockScenario, func(s *Sim) { s.AddOracle(NewOracleC15(s)) }),
 		Rule: "a run is non-trivial iff some proposal was made while the proposer's clock was not ahead of the previous block's timestamp (skew or backward step); distinct = distinct ordered delivery sequences"})
